@@ -167,6 +167,8 @@ def bounded_close(T, rng, n, only=None):
             s.strict_blocking = True
             try:
                 ws.close(timeout=timeout)
+                if getattr(s, "blocked_forever", False):
+                    raise BlocksForever("swallowed inside close()")
             except BlocksForever:
                 T.fail("spec", {"kind": "bounded", "timeout": timeout, "dt": dt, "chatter": s.chatter, "sock_timeout": sock_timeout},
                        f"close(timeout={timeout}) returns", "it reads from the transport with no timeout set while the server is silent: it never returns",
